@@ -2513,6 +2513,9 @@ As a workaround use x.as_expr() %s y.as_expr()""" % op)
         try:
             return evaluate_expr(expr, var, arg)
         except:
+            if expr.is_Piecewise and expr.args[-1][1] != True:
+                # Result is only defined for the stated condition
+                raise
             return evaluate_expr(expr.simplify(), var, arg)
 
     def has(self, *patterns):
